@@ -121,6 +121,8 @@ def gen_ops(rng, prof, config):
         if name.startswith('supervisor.'):
             method = name
             args = [gen.pick(rng, gen.namespecs_of(config)), False]
+            if rng.random() < 0.15:
+                args[0] = args[0].split(':')[0] + ':*'
         else:
             method = 'supvisors.' + name
             args = OPS[name](rng, config)
